@@ -270,6 +270,15 @@ impl Text {
     pub fn into_bytes(self) -> (r: Vec<u8>)
         ensures r@ == self.bytes(),
     { unimplemented!() }
+    // String/str methods that the pinned code does not call: no postcondition (unknown result), so an edit
+    // that starts using them is judged by the contract instead of being rejected by the front end
+    #[verifier::external_body] pub fn trim(&self) -> (r: Text) { unimplemented!() }
+    #[verifier::external_body] pub fn trim_end(&self) -> (r: Text) { unimplemented!() }
+    #[verifier::external_body] pub fn trim_start(&self) -> (r: Text) { unimplemented!() }
+    #[verifier::external_body] pub fn to_string(&self) -> (r: Text) { unimplemented!() }
+    #[verifier::external_body] pub fn to_owned(&self) -> (r: Text) { unimplemented!() }
+    #[verifier::external_body] pub fn to_lowercase(&self) -> (r: Text) { unimplemented!() }
+    #[verifier::external_body] pub fn replace(&self, _a: &str, _b: &str) -> (r: Text) { unimplemented!() }
 }
 /// the bytes of `crate::bed::autosql::BED3`
 pub uninterp spec fn bed3() -> Seq<u8>;
